@@ -607,10 +607,24 @@ def c09(tier, repo=None):
         for r in agents.get("race_reports", [])[:5]:
             verdict.violation("data-race:" + r["top_frame"], {"race_report": r}, r.get("file", ""))
         log("  agents: %d calls validated, %d rejected, %d race reports" % (agents.get("cases", 0), len(agents.get("bad", [])), len(agents.get("race_reports", []))))
+    cbiso = None
+    try:
+        import checks_cb
+        cbiso = checks_cb.callback_isolation(tier, repo=repo)
+    except (ImportError, AttributeError):
+        log("  note: callback isolation of overlapping runs (lib/checks_cb.py) not available in this tree")
+    if cbiso:
+        states += cbiso.get("states", 0)
+        trans += cbiso.get("transitions", 0)
+        for cid, reason in cbiso.get("bad", [])[:5]:
+            verdict.violation("callbacks-of-overlapping-runs-not-isolated:" + str(reason), {"callback_case": cid}, reason)
+        for r in cbiso.get("race_reports", [])[:5]:
+            verdict.violation("data-race:" + r["top_frame"], {"race_report": r}, r.get("file", ""))
+        log("  callbacks of overlapping runs: %d run-cases validated, %d rejected" % (cbiso.get("cases", 0), len(cbiso.get("bad", []))))
     code, n_new, n_known = verdict.finish()
     some = [idx[k] for k in vlib.sample(sorted(idx.keys()), 3)]
     nontriv = len({nontrivial_signature(c, o) for c, o in idx.values() if len(o) > 3})
-    cov = {"states": states, "transitions": trans, "traces_validated_against_impl": len(idx) + (agents or {}).get("cases", 0),
+    cov = {"states": states, "transitions": trans, "traces_validated_against_impl": len(idx) + (agents or {}).get("cases", 0) + (cbiso or {}).get("cases", 0),
            "samples": [{"case": c, "observations": [json.loads(x) for x in o[1:10]]} for c, o in some] + (agents or {}).get("samples", [])[:2],
            "evaluations": len(idx), "distinct_nontrivial": nontriv,
            "rule": "scenarios enumerated by TLC (EinoGen) with state / interrupt / nesting variants; each compiled once and driven by %d concurrent logical runs "
@@ -618,6 +632,7 @@ def c09(tier, repo=None):
                    "distinct = distinct (shape, marks, observation-kind sequence) with at least 3 observations" % callers,
            "exhaustive": False, "callers": callers, "scenarios": len(scs), "race_pass_scenarios": min(nrace, len(scs)),
            "race_reports_in_eino_code": len(reps), "agent_level": {k: v for k, v in (agents or {}).items() if k in ("cases", "lines", "states")},
+           "callback_level": {k: v for k, v in (cbiso or {}).items() if k in ("cases", "lines", "states")},
            "rejected_runs": len(bad), "confirmed": len(confirmed), "known_findings": n_known, "model_runs": model_runs}
     vlib.write_evidence(prop, tier, "model_checking", cov, assumptions=[
         "isolation is decided per run by the single-run rule (RunRule): a run that saw another run's value, state, option or checkpoint is rejected because its terms carry the tag of the run",
